@@ -294,7 +294,7 @@ static void run_mv(void) {
         printf("="); u_print(u);
         lp_variable_t x = lp_polynomial_is_constant(A) ? pio_x[0] : lp_polynomial_top_variable(A);
         lp_polynomial_t* back = lp_upolynomial_to_polynomial(u, pio_ctx, x);
-        printf("="); print_obj(back);
+        printf("="); free(print_obj(back));
         lp_polynomial_delete(back); lp_upolynomial_delete(u);
       }
       lp_polynomial_delete(A);
@@ -424,7 +424,7 @@ static void run_uv(void) {
       /* univariate -> multivariate (variable x<j>) -> univariate */
       pio_init(K);
       lp_polynomial_t* p = lp_upolynomial_to_polynomial(U[IDX(1)], pio_ctx, pio_x[IDX(2)]);
-      printf("="); print_obj(p);
+      printf("="); free(print_obj(p));
       lp_upolynomial_t* back = lp_polynomial_to_univariate(p);
       printf("="); if (back) { u_print(back); lp_upolynomial_delete(back); } else printf("none");
       lp_polynomial_delete(p); pio_done(); k += 3;
